@@ -4,7 +4,7 @@
    Does not: "no event is lost when the process dies" - the replay saves a position that covers the whole page after
    the first handled event (witness below); nor "a delivery happens only while the saved position is below it" (the
    rest of a page is delivered while the saved position already covers it). *)
-From Coq Require Import List Arith Bool Lia.
+From Coq Require Import List Arith Bool Lia Sorted.
 Import ListNotations.
 From Ebu Require Import Store.ResubModel Store.ResubProofs Store.ResubDs.
 
@@ -420,4 +420,194 @@ Proof.
   assert (Q : quiet (begin_op (restart s0) clean)) by (unfold quiet; cbn; auto).
   destruct (sub_ds_live tys f _ id I1 Q eq_refl Hb0) as [D Hin]. rewrite <- Es in D, Hin.
   intros p Hp. exact (proj2 (LC D id _ Hin) p Hp).
+Qed.
+
+(* ================================================================== *)
+(* Exactly once and in log order when nothing goes wrong (clean plans, no publishes from inside a replay, the log fits
+   one page): the invariant K of ResubProofs holds between the operations here too; inside a page the saved position runs
+   ahead of the deliveries, so the loop carries "everything delivered to the subscription so far lies below the cursor". *)
+
+Lemma deliver_saveN_K tys s id val pos N :
+  K tys s -> (forall p, In p (for_id id (dels s)) -> p < pos) -> pos <= N -> N <= length (log s) ->
+  get_saved s id <= N -> typed tys (log s) id pos ->
+  let s' := save (deliver s id val pos) id N in
+  K tys s' /\ log s' = log s /\ last s' = last s /\ live s' = live s /\ get_saved s' id = N /\
+  (forall i, i <> id -> get_saved s' i = get_saved s i) /\
+  dels s' = {| d_id := id; d_val := val; d_pos := pos; d_sv := get_saved s id |} :: dels s.
+Proof.
+  intros [Q W Cv Ds Ty Lv] Hlt HpN HN Hs Ht.
+  destruct (deliver_quiet s id val pos Q) as [Q1 D1].
+  pose proof (deliver_fields s id val pos) as F1. cbv zeta in F1. destruct F1 as (L1 & S1 & La1 & Li1 & _ & _).
+  pose proof (deliver_wf s id val pos W) as W1.
+  set (s1 := deliver s id val pos) in *.
+  destruct (save_quiet s1 id N Q1) as [Q2 S2].
+  pose proof (save_fields s1 id N) as F2. cbv zeta in F2. destruct F2 as (L2 & La2 & Li2 & D2 & _ & _).
+  assert (W2 : wf (save s1 id N)) by (apply save_wf; [rewrite L1; exact HN | exact W1]).
+  set (s2 := save s1 id N) in *.
+  assert (Gid : get_saved s2 id = N) by (unfold get_saved; rewrite S2; apply get_set_same).
+  assert (Go : forall i, i <> id -> get_saved s2 i = get_saved s i).
+  { intros i Hne. unfold get_saved. rewrite S2, get_set_other by exact Hne. rewrite S1. reflexivity. }
+  split; [|splits; try congruence; auto]. constructor; auto.
+  - intros d Hin. rewrite D2, D1 in Hin. destruct Hin as [<- | Hin]; cbn [d_pos d_id]; [rewrite Gid; lia|].
+    destruct (Nat.eq_dec (d_id d) id) as [E|Hne]; [rewrite E, Gid; specialize (Cv d Hin); rewrite E in Cv; lia | rewrite Go by exact Hne; apply Cv; exact Hin].
+  - intros i. rewrite D2, D1. destruct (Nat.eq_dec id i) as [<-|Hne].
+    + rewrite for_id_cons_same by reflexivity. cbn [d_pos]. constructor; [apply Ds|].
+      apply Forall_forall. intros p Hp. specialize (Hlt p Hp). unfold gt. lia.
+    + rewrite for_id_cons_other by exact Hne. apply Ds.
+  - intros d Hin. rewrite D2, D1 in Hin. rewrite L2, L1. destruct Hin as [<- | Hin]; [exact Ht | apply Ty; exact Hin].
+  - intros i t Hin. rewrite Li2, Li1 in Hin. apply (Lv i t Hin).
+Qed.
+
+Lemma page_K tys id N : forall tl cur s k,
+  K tys s -> 1 <= cur -> cur - 1 + length tl = length (log s) -> N = length (log s) ->
+  (forall j e, nth_error tl j = Some e -> nth_error (log s) (cur - 1 + j) = Some e) ->
+  (forall p, In p (for_id id (dels s)) -> p < cur) -> get_saved s id <= N ->
+  let r := page_loop (indexed tl cur) s id (nth id tys 0) N k [] in
+  K tys (fst r) /\ log (fst r) = log s /\ live (fst r) = live s.
+Proof.
+  induction tl as [|e tl IH]; intros cur s k Ks Hc Hlen HN Hnth Hlt Hs; cbn [indexed page_loop]; [cbn; auto|].
+  assert (He : nth_error (log s) (cur - 1) = Some e) by (rewrite <- (Nat.add_0_r (cur - 1)); apply Hnth; reflexivity).
+  cbn [length] in Hlen.
+  assert (Hnth' : forall s', log s' = log s -> forall j e', nth_error tl j = Some e' -> nth_error (log s') (S cur - 1 + j) = Some e').
+  { intros s' L' j e' Hj. rewrite L'. replace (S cur - 1 + j) with (cur - 1 + S j) by lia. apply Hnth. exact Hj. }
+  destruct (Nat.eqb (e_ty e) (nth id tys 0)) eqn:Ety.
+  - apply Nat.eqb_eq in Ety. cbn [inner_at filter map fold_left].
+    assert (Ht : typed tys (log s) id cur) by (exists e; splits; [lia | exact He | exact Ety]).
+    pose proof (deliver_saveN_K tys s id (e_val e) cur N Ks Hlt ltac:(lia) ltac:(lia) Hs Ht) as H. cbv zeta in H.
+    destruct H as (K4 & L4 & La4 & Li4 & G4 & O4 & D4).
+    set (s4 := save (deliver s id (e_val e) cur) id N) in *.
+    assert (Hlt4 : forall p, In p (for_id id (dels s4)) -> p < S cur).
+    { intros p Hp. rewrite D4, for_id_cons_same in Hp by reflexivity. destruct Hp as [<-|Hp]; [cbn; lia | specialize (Hlt p Hp); lia]. }
+    specialize (IH (S cur) s4 (S k) K4 (le_S _ _ Hc) ltac:(rewrite L4; lia) ltac:(rewrite L4; exact HN) (Hnth' s4 L4) Hlt4 ltac:(rewrite G4; lia)).
+    cbv zeta in IH. destruct IH as (K5 & L5 & Li5). splits; congruence.
+  - assert (Hlt1 : forall p, In p (for_id id (dels s)) -> p < S cur) by (intros p Hp; specialize (Hlt p Hp); lia).
+    apply (IH (S cur) s k Ks (le_S _ _ Hc) ltac:(lia) HN (Hnth' s eq_refl) Hlt1 Hs).
+Qed.
+
+Lemma tick_K tys s s1 : K tys s -> tick s = (s1, true, false) -> quiet s1 ->
+  log s1 = log s -> saved s1 = saved s -> last s1 = last s -> live s1 = live s -> dels s1 = dels s -> K tys s1.
+Proof.
+  intros [Q W Cv Ds Ty Lv] _ Q1 L1 S1 La1 Li1 D1. constructor; auto.
+  - eapply wf_same; eassumption.
+  - intros d Hin. rewrite D1 in Hin. unfold get_saved. rewrite S1. apply Cv. exact Hin.
+  - intros i. rewrite D1. apply Ds.
+  - intros d Hin. rewrite D1 in Hin. rewrite L1. apply Ty. exact Hin.
+  - intros i t Hin. rewrite Li1 in Hin. apply (Lv i t Hin).
+Qed.
+
+Lemma pages_K tys id f s :
+  K tys s -> length (log s) <= batch ->
+  let r := replay_pages (S (S f)) s id (nth id tys 0) (get_saved s id) 0 [] in
+  snd r = false /\ K tys (fst r) /\ log (fst r) = log s /\ live (fst r) = live s.
+Proof.
+  intros Ks Hb. pose proof Ks as [Q W Cv Ds Ty Lv]. set (from := get_saved s id).
+  assert (Hfrom : from <= length (log s)) by apply (proj1 (proj2 W)).
+  rewrite replay_pages_unfold. destruct (tick_quiet s Q) as (s1 & Ht & Q1 & L1 & S1 & La1 & Li1 & D1). rewrite Ht.
+  cbn [negb orb]. cbv zeta. rewrite skipn_indexed, L1.
+  rewrite firstn_all2 by (assert (X : forall (l : list ev) i, length (indexed l i) = length l)
+                             by (induction l as [|x l IHl]; intros i; cbn; [reflexivity | rewrite IHl; reflexivity]);
+                           rewrite X, skipn_length; lia).
+  pose proof (tick_K tys s s1 Ks Ht Q1 L1 S1 La1 Li1 D1) as K1.
+  destruct (skipn from (log s)) as [|e tl] eqn:Esk.
+  - cbn [indexed fst snd]. splits; auto.
+  - assert (Hlt : from < length (log s)).
+    { assert (length (skipn from (log s)) = S (length tl)) by (rewrite Esk; reflexivity). rewrite skipn_length in H. lia. }
+    assert (Hlen : 1 + from - 1 + length (e :: tl) = length (log s1)).
+    { rewrite L1, <- Esk, skipn_length. lia. }
+    assert (Hnth : forall j e', nth_error (e :: tl) j = Some e' -> nth_error (log s1) (1 + from - 1 + j) = Some e').
+    { intros j e' Hj. rewrite <- Esk, nth_error_skipn' in Hj. rewrite L1. replace (1 + from - 1 + j) with (from + j) by lia. exact Hj. }
+    assert (Hbelow : forall p, In p (for_id id (dels s1)) -> p < 1 + from).
+    { intros p Hp. rewrite D1 in Hp. apply for_id_in in Hp. destruct Hp as [d [Hin [Hid Hp]]]. specialize (Cv d Hin). rewrite Hid in Cv. fold from in Cv. lia. }
+    assert (Hs1 : get_saved s1 id <= length (log s)) by (unfold get_saved; rewrite S1; exact Hfrom).
+    pose proof (page_K tys id (length (log s)) (e :: tl) (1 + from) s1 0 K1 (le_n_S _ _ (Nat.le_0_l from)) Hlen (f_equal (@length ev) (eq_sym L1)) Hnth Hbelow Hs1) as H.
+    cbv zeta in H. cbn [indexed] in H |- *.
+    destruct (page_loop ((1 + from, e) :: indexed tl (S (1 + from))) s1 id (nth id tys 0) (length (log s)) 0 []) as [s2 k2].
+    cbn [fst] in H. destruct H as (K2 & L2 & Li2).
+    assert (Ene : Nat.eqb (length (log s)) from = false) by (apply Nat.eqb_neq; lia). rewrite Ene.
+    assert (Ll : length (log s) = length (log s2)) by congruence. rewrite Ll.
+    destruct (pages_end f s2 id (nth id tys 0) k2 (K_quiet _ _ K2)) as (s3 & E3 & Q3 & L3 & S3 & La3 & Li3 & D3). rewrite E3.
+    cbn [fst snd]. splits; [reflexivity | | congruence | congruence].
+    destruct K2 as [Q2 W2 Cv2 Ds2 Ty2 Lv2]. constructor; auto.
+    + apply (wf_same s2 s3); assumption.
+    + intros d Hin. rewrite D3 in Hin. unfold get_saved. rewrite S3. apply Cv2. exact Hin.
+    + intros i. rewrite D3. apply Ds2.
+    + intros d Hin. rewrite D3 in Hin. rewrite L3. apply Ty2. exact Hin.
+    + intros i t Hin. rewrite Li3 in Hin. apply (Lv2 i t Hin).
+Qed.
+
+Lemma sub_ds_K tys f s id :
+  K tys s -> is_live s id = false -> length (log s) <= batch -> K tys (fst (sub_ds (S (S f)) tys s id [])).
+Proof.
+  intros Ks NL Hb. pose proof Ks as [Q W Cv Ds Ty Lv]. unfold sub_ds.
+  destruct (tick_quiet s Q) as (s1 & Ht & Q1 & L1 & S1 & La1 & Li1 & D1). rewrite Ht. cbn [negb orb].
+  pose proof (tick_K tys s s1 Ks Ht Q1 L1 S1 La1 Li1 D1) as K1.
+  pose proof (pages_K tys id f s1 K1 ltac:(rewrite L1; exact Hb)) as H. cbv zeta in H.
+  destruct (replay_pages (S (S f)) s1 id (nth id tys 0) (get_saved s1 id) 0 []) as [s3 err].
+  cbn [fst snd] in H. destruct H as (Er & K3 & L3 & Li3). subst err.
+  rewrite (proj1 (K_quiet _ _ K3)). cbn [orb fst].
+  destruct K3 as [Q3 W3 Cv3 Ds3 Ty3 Lv3]. constructor; auto.
+  - destruct W3 as [W3a [W3b W3c]]. unfold wf, get_saved. cbn. splits; auto.
+    rewrite map_app. cbn. apply nodup_snoc; [exact W3c|]. apply not_live_notin. rewrite (is_live_same s s3 id); [exact NL | congruence].
+  - intros i t Hin. cbn [live with_live] in Hin. apply in_app_or in Hin. destruct Hin as [Hin | [Heq | []]]; [apply (Lv3 i t Hin) | inversion Heq; reflexivity].
+Qed.
+
+Lemma step_ds_K tys f s o :
+  op_inner_free o -> length (log s) <= batch -> K tys s -> K tys (fst (step_ds (S (S f)) tys s o clean)).
+Proof.
+  intros Hif Hb Ks. destruct o as [ty val | id inner |]; cbn [step_ds].
+  - cbn [fst]. apply pub_K. apply begin_clean_K. exact Ks.
+  - cbn in Hif. subst inner. destruct (op_ok s (OSub id [])) eqn:Ok; [|exact Ks].
+    cbn [op_ok] in Ok. apply negb_true_iff in Ok. apply sub_ds_K; [apply begin_clean_K; exact Ks | exact Ok | exact Hb].
+  - cbn [fst]. destruct Ks as [Q W Cv Ds Ty Lv]. destruct (restart_ext s) as [_ W']. constructor; auto.
+    + unfold quiet. cbn. auto.
+    + intros id t [].
+Qed.
+
+Lemma run_ds_K tys f : forall h s,
+  clean_hist h -> length (log (run_ds (S (S f)) tys h s)) <= batch -> K tys s -> K tys (run_ds (S (S f)) tys h s).
+Proof.
+  induction h as [|[o pl] r IH]; intros s Hc Hb Ks; cbn [run_ds fold_left]; [exact Ks|].
+  inversion Hc as [|? ? [Hpl Hif] Hc']; subst. cbn [fst snd] in *. subst pl.
+  set (s1 := fst (step_ds (S (S f)) tys s o clean)) in *.
+  assert (W : wf s) by apply Ks.
+  destruct (step_ds_mono (S (S f)) tys s o clean W) as [W1 M1]. fold s1 in W1, M1.
+  destruct (run_ds_mono (S (S f)) tys r s1 W1) as [_ M2].
+  assert (Hbs : length (log s) <= batch).
+  { apply mono_len in M1. apply mono_len in M2. unfold run_ds in Hb, M2. cbn [fold_left fst snd] in Hb. fold s1 in Hb. lia. }
+  apply IH; [exact Hc' | exact Hb | apply step_ds_K; assumption].
+Qed.
+
+(* exactly once, in log order, over the durable-streams store: over any history of publishes, SubscribeWithReplay calls
+   and restarts in which nothing fails (and the log fits one page), the positions delivered to a subscription are
+   strictly increasing over the whole history, each is an event of the subscribed type, and each is covered by the
+   saved position *)
+Theorem exactly_once_in_order_ds tys f h id :
+  clean_hist h ->
+  let s := run_ds (S (S f)) tys h init in
+  length (log s) <= batch ->
+  StronglySorted gt (for_id id (dels s)) /\
+  (forall d, In d (dels s) -> typed tys (log s) (d_id d) (d_pos d)) /\
+  (forall d, In d (dels s) -> d_pos d <= get_saved s (d_id d)).
+Proof. intros Hc s Hb. destruct (run_ds_K tys f h init Hc Hb (K_init tys)) as [_ _ Cv Ds Ty _]. splits; auto. Qed.
+
+Lemma clean_subs_clean h : clean_hist h -> subs_clean h.
+Proof.
+  intros H. eapply Forall_impl; [|exact H]. intros [o pl] [Hpl Hif]. unfold sub_clean. cbn [fst snd] in *.
+  destruct o; auto.
+Qed.
+
+Theorem exactly_once_complete_ds tys f h id :
+  clean_hist h ->
+  let s := run_ds (S (S f)) tys (h ++ [(ORestart, clean); (OSub id [], clean)]) init in
+  length (log s) <= batch ->
+  NoDup (for_id id (dels s)) /\ forall p, typed tys (log s) id p <-> In p (for_id id (dels s)).
+Proof.
+  intros Hc s Hb.
+  assert (Hc' : clean_hist (h ++ [(ORestart, clean); (OSub id [], clean)])).
+  { apply Forall_app. split; [exact Hc|]. repeat constructor. }
+  destruct (run_ds_K tys f _ init Hc' Hb (K_init tys)) as [_ _ _ Ds Ty _]. fold s in Ds, Ty.
+  split; [apply desc_nodup; apply Ds|]. intros p. split.
+  - intros Ht. destruct (caught_up_after_resubscribe_ds tys f h id (clean_subs_clean h Hc) Hb p Ht) as [d [Hin [Hid Hp]]].
+    unfold for_id. apply in_map_iff. exists d. split; [exact Hp|]. apply filter_In. split; [exact Hin | apply Nat.eqb_eq; exact Hid].
+  - intros Hin. apply for_id_in in Hin. destruct Hin as [d [Hin [Hid Hp]]]. subst. apply Ty. exact Hin.
 Qed.
